@@ -31,6 +31,8 @@ var conds = []string{
 	`len("abc") == 3`, `len("abc") == 4`, "unsafe.Sizeof(int64(0)) == 4", "unsafe.Sizeof(int64(0)) == 8", "bool(flag(false))",
 	"bool(flag(true))", "!(len(name) > 2)", "len(name) > 2", "int(cn) == 5", "float64(cn) < 1.5", "min(1, cn) == 1", "max(1, cn) == 1",
 	"bool(tf)", "bool(tt)", "tt == true", "tf != false", `string(rune(65)) == "A"`, "real(complex(1, 2)) == 2", "len([3]int{}) == 3",
+	// non-constant although a constant operand decides them (go/types does not fold across a call)
+	"cf && probe(%d) > 0", "ct || probe(%d) > 0", "ct && cf || b",
 	"(bool)(ct)", "!bool(cf)", `name[0] == 'a'`, "x > 3", "b", "len(s) > int(cn)", "bool(b)", "flag(b) == tt",
 }
 
@@ -82,7 +84,7 @@ func (g *sgen) ifChain(depth int) {
 func (g *sgen) stmt(depth int) {
 	g.max--
 	in := g.ind(depth)
-	k := g.rng.Intn(27)
+	k := g.rng.Intn(28)
 	if depth >= 8 {
 		k = 23
 	}
@@ -126,6 +128,12 @@ func (g *sgen) stmt(depth int) {
 		// comparisons over operands of several types (the custom-filter rules of the history mode look at them)
 		g.sb.WriteString(in + "_ = " + []string{"x == cn", `name == "abcd"`, "b == ct", "float64(x) == 1.5", "s == nil", "x != 3", `name != "q"`,
 			"b != cf", "s != nil", "float64(cn) != float64(x)", "s[0] == x"}[g.rng.Intn(11)] + "\n")
+	case k == 27:
+		g.label++
+		l := fmt.Sprintf("L%d", g.label)
+		g.sb.WriteString(in + l + ":\n" + in + "for range s {\n")
+		g.block(depth+1, 1+g.rng.Intn(2))
+		g.sb.WriteString(in + "\tif " + g.cond() + " {\n" + in + "\t\tcontinue " + l + "\n" + in + "\t}\n" + in + "}\n")
 	case k == 26:
 		g.sb.WriteString(in + "go func() {\n")
 		g.block(depth+1, 1)
@@ -159,6 +167,13 @@ func genFile(rng *rand.Rand, idx, size int) string {
 	fmt.Fprintf(&g.sb, "var fs%d = []func(x int, b bool, s []int) int{func(x int, b bool, s []int) int {\n", idx)
 	g.block(0, 1+rng.Intn(3))
 	g.sb.WriteString("\treturn " + g.probe() + "\n}}\n\n")
+	g.max = size / 2
+	fmt.Fprintf(&g.sb, "type GT%d[K comparable] struct{ k K }\n\nfunc gf%d[K comparable, V any](k K, v V, x int, b bool, s []int) {\n", idx, idx)
+	g.block(0, 2+rng.Intn(3))
+	fmt.Fprintf(&g.sb, "}\n\nfunc (GT%d[K]) gm(x int, b bool, s []int) {\n", idx)
+	g.max = size / 2
+	g.block(0, 1+rng.Intn(3))
+	g.sb.WriteString("}\n\n")
 	nf := 2 + rng.Intn(3)
 	for i := 0; i < nf; i++ {
 		g.max = size
